@@ -619,6 +619,14 @@ def wrapper_defaults(fi):
 
 # --------------------------------------------------------------------------------------------------------- self examples
 SELF_EXAMPLES = [
+    ('case-folded-key', "KINDS = {'major': '', 'minMaj7': 'm(maj7)'}\ndef f(text):\n  kind = text.strip().lower()\n  if kind not in KINDS:\n    raise ValueError(kind)\n  return KINDS[kind]\n", BAD),
+    ('case-folded-key', "KINDS = {'major': '', 'minor': 'm'}\ndef f(text):\n  kind = text.strip().lower()\n  return KINDS[kind]\n", OK),
+    ('mergefrom-as-assignment', 'def f(piece, a, b):\n  piece.info.MergeFrom(Info(start=a, end=b))\n', BAD),
+    ('mergefrom-as-assignment', 'def f(piece, other):\n  piece.info.MergeFrom(other.info)\n', None),
+    ('stale-loop-variable', 'def f(m):\n  names = {}\n  for num, inst in enumerate(m.instruments):\n    names[num] = inst.name\n  return [(inst.program, num, cc) for n, i in enumerate(m.instruments) for cc in i.ccs]\n', BAD),
+    ('stale-loop-variable', 'def f(m):\n  names = {}\n  for num, inst in enumerate(m.instruments):\n    names[num] = inst.name\n  return [(i.program, n, cc) for n, i in enumerate(m.instruments) for cc in i.ccs]\n', None),
+    ('unzip-empty', 'def f(events):\n  pairs = [(g(events, i), h(events, i)) for i in range(len(events) - 1)]\n  a, b = map(list, zip(*pairs))\n  return a, b\n', BAD),
+    ('unzip-empty', 'def f(events):\n  pairs = [(g(events, i), h(events, i)) for i in range(len(events) - 1)]\n  if not pairs:\n    return [], []\n  a, b = map(list, zip(*pairs))\n  return a, b\n', OK),
     ('previous-wraps', 'def f(ups, amount):\n  k = sum(1 for h in ups if h <= amount)\n  return amount - ups[k - 1]\n', BAD),
     ('previous-wraps', 'def f(ups, amount):\n  k = sum(1 for h in ups if h <= amount)\n  return amount - (ups[k - 1] if k else 0)\n', OK),
     ('falsy-domain-zero', 'def f(events, d):\n  return (events[-d] if len(events) >= d else None) or MELODY_NO_EVENT\n', BAD),
@@ -673,7 +681,7 @@ class _FakeFn:
 class _FakeMod:
   def __init__(self, tree):
     self.functions = dict((n.name, _FakeFn(n)) for n in tree.body if isinstance(n, ast.FunctionDef))
-    self.assigns = {}
+    self.assigns = dict((n.targets[0].id, [n.value]) for n in tree.body if isinstance(n, ast.Assign) and len(n.targets) == 1 and isinstance(n.targets[0], ast.Name))
 
 
 def resolve_callee(fi, call, P):
@@ -969,6 +977,123 @@ def shadowed_literal_branches(fn):
   return out
 
 
+def mergefrom_assignments(fn):
+  """`target.MergeFrom(Message(field=value, ...))` used to *set* scalar fields: in proto3 a scalar that holds its default (0, 0.0, '',
+  False) is not serialised and MergeFrom skips it, so a new value of exactly 0 leaves whatever the target held before.  Setting the
+  fields, or CopyFrom, writes them whatever the value."""
+  out = []
+  for c in ast.walk(fn):
+    if isinstance(c, ast.Call) and isinstance(c.func, ast.Attribute) and c.func.attr == 'MergeFrom' and len(c.args) == 1 and isinstance(c.args[0], ast.Call) and c.args[0].keywords and \
+        not c.args[0].args:
+      kws = [k for k in c.args[0].keywords if k.arg and not isinstance(k.value, (ast.List, ast.Tuple, ast.ListComp))]
+      nonzero = [k for k in kws if isinstance(U.const_value(k.value), (int, float)) and U.const_value(k.value) != 0]
+      if kws and len(nonzero) < len(kws):
+        out.append(Site('mergefrom-as-assignment', c, BAD, '%s sets %s by merging a freshly built message: MergeFrom skips a scalar whose new value is the default (0 / 0.0), so when the new value '
+                        'is exactly 0 the field keeps what %s held before' % (norm_text(c)[:60], ', '.join(k.arg for k in kws if k not in nonzero), norm_text(c.func.value))))
+  return out
+
+
+def case_folded_keys(fn, mod, cls=None):
+  """A text that was lower-cased (upper-cased) and is then looked up in a module-level table one of whose keys contains an upper-case
+  (lower-case) letter: that key can never be found."""
+  out = []
+  for n in ast.walk(fn):
+    key, tab = None, None
+    if isinstance(n, ast.Subscript) and isinstance(n.value, (ast.Name, ast.Attribute)):
+      key, tab = n.slice, n.value
+    elif isinstance(n, ast.Compare) and len(n.ops) == 1 and isinstance(n.ops[0], (ast.In, ast.NotIn)) and isinstance(n.comparators[0], (ast.Name, ast.Attribute)):
+      key, tab = n.left, n.comparators[0]
+    elif isinstance(n, ast.Call) and isinstance(n.func, ast.Attribute) and n.func.attr == 'get' and n.args and isinstance(n.func.value, (ast.Name, ast.Attribute)):
+      key, tab = n.args[0], n.func.value
+    if key is None:
+      continue
+    kx = U.expand_locals(fn, key, at=n)
+    fold_ = next((c.func.attr for c in ast.walk(kx) if isinstance(c, ast.Call) and isinstance(c.func, ast.Attribute) and c.func.attr in ('lower', 'upper', 'casefold') and not c.args), None)
+    if fold_ is None:
+      continue
+    tname = tab.id if isinstance(tab, ast.Name) else tab.attr
+    vals = getattr(mod, 'assigns', {}).get(tname, [])
+    if isinstance(tab, ast.Attribute) and isinstance(tab.value, ast.Name) and tab.value.id in ('self', 'cls') and cls is not None:
+      vals = [st.value for st in cls.node.body if isinstance(st, ast.Assign) and len(st.targets) == 1 and isinstance(st.targets[0], ast.Name) and st.targets[0].id == tname]
+    if len(vals) != 1 or not isinstance(vals[0], ast.Dict):
+      continue
+    keys = [k.value for k in vals[0].keys if isinstance(k, ast.Constant) and isinstance(k.value, str)]
+    lost = [k for k in keys if (k != k.lower() if fold_ in ('lower', 'casefold') else k != k.upper())]
+    if lost:
+      out.append(Site('case-folded-key', n, BAD, '%s looks a %s-cased text up in %s, whose key%s %s cannot be spelled that way: %s never found (a text written exactly like the key is '
+                      'rejected)' % (norm_text(n)[:60], fold_, tname, 's' if len(lost) > 1 else '', ', '.join(repr(k) for k in lost[:3]), 'they are' if len(lost) > 1 else 'it is')))
+    else:
+      out.append(Site('case-folded-key', n, OK, 'every key of %s survives .%s()' % (tname, fold_)))
+  return out
+
+
+def stale_loop_variables(fn):
+  """Inside a comprehension, a name that is not bound by the comprehension but is the target of an *earlier, finished* for-loop over
+  the same iterable as one of the comprehension's generators: it holds the last element of that loop for every element of the
+  comprehension.  (The comprehension was a loop body once; its variables were renamed, one use was not.)"""
+  out = []
+  loops = [l for l in ast.walk(fn) if isinstance(l, ast.For)]
+  for comp in ast.walk(fn):
+    if not isinstance(comp, (ast.ListComp, ast.SetComp, ast.GeneratorExp, ast.DictComp)):
+      continue
+    bound = set(t.id for g in comp.generators for t in ast.walk(g.target) if isinstance(t, ast.Name))
+    iters = [norm_text(g.iter) for g in comp.generators]
+    for lp in loops:
+      if any(x is comp for x in ast.walk(lp)):
+        continue          # the comprehension is inside that loop: its variables are current
+      if getattr(lp, 'end_lineno', lp.lineno) >= comp.lineno:
+        continue
+      lp_iter = norm_text(lp.iter)
+      same_source = any(i == lp_iter or (i.startswith('list(') and i[5:-1] == lp_iter) or (lp_iter.startswith('list(') and lp_iter[5:-1] == i) for i in iters)
+      if not same_source:
+        continue
+      targets = set(t.id for t in ast.walk(lp.target) if isinstance(t, ast.Name)) - bound
+      used = sorted(set(n.id for part in ([comp.elt] if hasattr(comp, 'elt') else [comp.key, comp.value]) for n in ast.walk(part)
+                        if isinstance(n, ast.Name) and isinstance(n.ctx, ast.Load) and n.id in targets))
+      if used:
+        out.append(Site('stale-loop-variable', comp, BAD, 'the comprehension over %s uses %s, which it does not bind: %s the loop variable%s of the finished loop at line %d over the same '
+                        'sequence, so every element is built from the *last* element of that loop' % (iters[0][:40], ', '.join(used), 'they are' if len(used) > 1 else 'it is',
+                                                                                                    's' if len(used) > 1 else '', lp.lineno)))
+  return out
+
+
+def unzip_of_empty(fn):
+  """`a, b = zip(*pairs)` (also through map(list, ...)): transposing with zip(*...) gives *no* tuples for an empty input, and the
+  unpacking into a fixed number of names raises ValueError - where a loop that appends to a and b would have returned two empty
+  lists.  OK when the statement is guarded by the truth / length of the input."""
+  out = []
+  for st in U.walk_stmts(fn):
+    if not (isinstance(st, ast.Assign) and len(st.targets) == 1 and isinstance(st.targets[0], (ast.Tuple, ast.List)) and len(st.targets[0].elts) >= 2):
+      continue
+    v = st.value
+    if isinstance(v, ast.Call) and dotted(v.func) == 'map' and len(v.args) == 2:
+      v = v.args[1]
+    if not (isinstance(v, ast.Call) and dotted(v.func) == 'zip' and len(v.args) == 1 and isinstance(v.args[0], ast.Starred)):
+      continue
+    src = v.args[0].value
+    stext = norm_text(src)
+    guarded = [t for t, p in guards_at(fn, st.value) if _mentions(t, stext) or any(isinstance(c, ast.Call) and dotted(c.func) == 'len' for c in ast.walk(t))]
+    if guarded:
+      out.append(Site('unzip-empty', st, OK, 'the transposition is guarded by %s' % norm_text(guarded[0])))
+    else:
+      out.append(Site('unzip-empty', st, BAD, '`%s` unpacks zip(*%s) into %d names: for an empty %s zip yields nothing and the assignment raises ValueError (not enough values to unpack) '
+                      'instead of giving %d empty sequences' % (norm_text(st)[:60], stext[:30], len(st.targets[0].elts), stext[:30], len(st.targets[0].elts))))
+  return out
+
+
+def one_sided_wraps(node, modulus=12, names=('NOTES_PER_OCTAVE',)):
+  """`E + N if E < 0 else E` where E is a sum: wrapped below 0 only; a value of N or more is left as it is."""
+  out = []
+  for v in ast.walk(node):
+    if not isinstance(v, ast.IfExp):
+      continue
+    for shifted, plain in ((v.body, v.orelse), (v.orelse, v.body)):
+      if isinstance(shifted, ast.BinOp) and isinstance(shifted.op, (ast.Add, ast.Sub)) and (U.const_value(shifted.right) == modulus or (dotted(shifted.right) or '').split('.')[-1] in names) and \
+          norm_text(shifted.left) == norm_text(plain):
+        out.append((v, 'below 0' if isinstance(shifted.op, ast.Add) else 'at or above %d' % modulus))
+  return out
+
+
 def dropped_pops(fn):
   """`x = C.pop(...)` in a function whose job is to *add* to C: on every way out (a return, the end of the function, the end of the
   loop body the pop sits in) the removed element has been put back or used - read somewhere other than in a branch condition.  A
@@ -1058,6 +1183,10 @@ def dropped_pops(fn):
 
 DETECT = {
     'dropped-pop': lambda fn, mod: dropped_pops(fn),
+    'mergefrom-as-assignment': lambda fn, mod: mergefrom_assignments(fn),
+    'case-folded-key': case_folded_keys,
+    'stale-loop-variable': lambda fn, mod: stale_loop_variables(fn),
+    'unzip-empty': lambda fn, mod: unzip_of_empty(fn),
     'shadowed-literal-branch': lambda fn, mod: shadowed_literal_branches(fn),
     'misaligned-index': lambda fn, mod: misaligned_indexes(fn),
     'neg-zero-slice': lambda fn, mod: neg_zero_slices(fn),
@@ -1067,7 +1196,7 @@ DETECT = {
     'stale-sibling': lambda fn, mod: stale_siblings(fn),
     'falsy-domain-zero': falsy_domain_zero,
 }
-DETECT_FI = {'wrapper-default': wrapper_defaults}      # detectors that need the FuncInfo (module context)
+DETECT_FI = {'wrapper-default': wrapper_defaults, 'case-folded-key': lambda fi: case_folded_keys(fi.node, fi.module, fi.cls)}      # detectors that need the FuncInfo (module context)
 
 _checked = []
 
